@@ -239,5 +239,37 @@ def solverTimestep (sqrt : α → α) (arrs : List (Arr α)) (cfl undamped : α)
     (fixedH : Option (Ext α)) : Res α :=
   solverTimestepOf (computeTimeStep sqrt arrs cfl fixedH) undamped
 
+/-! ## parallel runs: the min-reduction over ranks
+
+`Solver._compute_timestep` with `in_parallel`: a rank without a local constraint offers the
+sentinel `big` (1e20) to `pm.update_time_steps` (an MPI `Allreduce(MIN)`); when the reduced
+value is still the sentinel no rank had a constraint and the fixed step is kept (the last
+step is the `fix:` commit; `solverTimestepParOrig` is the code before it). -/
+
+/-- what this rank hands to the reduction; `none`: `compute_time_step` raised -/
+def parOffer (big : α) : Res α → Option (Ext α)
+  | Res.none => some (some big)
+  | Res.val d => some (some d)
+  | Res.inf => some Option.none
+  | Res.error => Option.none
+
+def reduceStep (acc : Ext α) (o : α) : Ext α := extMin acc (some o)
+
+/-- `Allreduce(MIN)` of this rank's offer with the other ranks' offers -/
+def reduceMin (x : Ext α) (others : List α) : Ext α := others.foldl reduceStep x
+
+def solverTimestepParOrig (big : α) (loc : Res α) (others : List α) : Res α :=
+  match parOffer big loc with
+  | Option.none => Res.error
+  | some x =>
+    match reduceMin x others with
+    | Option.none => Res.inf
+    | some d => Res.val d
+
+def solverTimestepPar (big und : α) (loc : Res α) (others : List α) : Res α :=
+  match solverTimestepParOrig big loc others with
+  | Res.val d => if big ≤ d then Res.val und else Res.val d
+  | r => r
+
 end
 end PysphVerif.AdaptDt
